@@ -39,6 +39,12 @@ def main():
     scratch = tempfile.mkdtemp(prefix='rpverif_%s_' % prop)
     ctx.scratch = scratch
     os.chdir(scratch)
+    # temporary files of this run - the harness's own and those the real code creates - live in a directory of
+    # their own: concurrent runs do not see (or clean up) each other's files, and everything goes with the scratch dir
+    tmp = os.path.join(scratch, 'tmp')
+    os.makedirs(tmp)
+    os.environ['TMPDIR'] = tmp
+    tempfile.tempdir = tmp
     rc = 2
     try:
         if args.replay:
